@@ -561,9 +561,13 @@ def gen_reader(dbmap_path, outp, tier):
                     body = base64.b64encode(("md5-" + body[1:]).encode()).decode()
                 if tag == "BinaryString" and wrap76:
                     # RFC 2045: lines of at most 76 characters; everything outside the base64 alphabet
-                    # (line breaks, indentation) must be ignored by the decoder
-                    sep = wrap76 if isinstance(wrap76, str) else "\n"
-                    body = sep.join(body[k:k + 76] for k in range(0, len(body), 76))
+                    # (line breaks, indentation) must be ignored by the decoder. A tuple (separator,
+                    # width) wraps at another width: a line need not hold a multiple of 4 characters.
+                    if isinstance(wrap76, tuple):
+                        sep, width = wrap76
+                    else:
+                        sep, width = (wrap76 if isinstance(wrap76, str) else "\n"), 76
+                    body = sep.join(body[k:k + width] for k in range(0, len(body), width))
                     if isinstance(wrap76, str) and len(wrap76) > 1:
                         body = wrap76 + body + wrap76
                 inner.append(prop_xml(tag, name, body))
@@ -590,8 +594,11 @@ def gen_reader(dbmap_path, outp, tier):
             for k in sorted(used):
                 b = base64.b64encode(sstr_defs[k]).decode()
                 if wrap76:
-                    sep = wrap76 if isinstance(wrap76, str) else "\n"
-                    b = sep.join(b[j:j + 8] for j in range(0, len(b), 8))
+                    if isinstance(wrap76, tuple):
+                        sep, width = wrap76
+                    else:
+                        sep, width = (wrap76 if isinstance(wrap76, str) else "\n"), 8
+                    b = sep.join(b[j:j + width] for j in range(0, len(b), width))
                     if isinstance(wrap76, str) and len(wrap76) > 1:
                         b = wrap76 + b + wrap76
                 defs.append('<SharedString md5="%s">%s</SharedString>' % (base64.b64encode(("md5-" + k).encode()).decode(), b))
@@ -689,6 +696,10 @@ def gen_reader(dbmap_path, outp, tier):
             for w in (False, True, "\r\n", "\n\t\t", "\n    ", " "):
                 doc, mode = render(dom, base_refs, None, "newline", set(), sf, w)
                 emit(doc, exp, "sharedstrings-position/base64-wrapping", mode)
+            for width in (1, 2, 3, 5, 6, 7, 9, 10, 64, 75, 77):
+                for sep in ("\n", "\r\n"):
+                    doc, mode = render(dom, base_refs, None, "newline", set(), sf, (sep, width))
+                    emit(doc, exp, "base64-line-width", mode)
 
     # two degrees of freedom at a time: the full product of the values of every pair of
     # dimensions, the others at their base value (thorough: every subset of the optional
@@ -708,7 +719,7 @@ def gen_reader(dbmap_path, outp, tier):
             "indent": ["newline", "none", "tabs", "spaces"],
             "extras": [set()] + [{e} for e in all_extras],
             "sstr": [False, True],
-            "wrap": [False, True, "\r\n", "\n\t\t", "\n    ", " "],
+            "wrap": [False, True, "\r\n", "\n\t\t", "\n    ", " ", ("\n", 1), ("\r\n", 3), ("\n", 5), ("\n", 75)],
         }
         names = list(dims)
         for ai in range(len(names)):
@@ -729,7 +740,7 @@ def gen_reader(dbmap_path, outp, tier):
                 ex = {all_extras[i] for i in range(len(all_extras)) if mask >> i & 1}
                 for indent in dims["indent"]:
                     for sf in (False, True):
-                        doc, mode = render(dom, dims["refs"][mask % 4], perms[mask % len(perms)], indent, ex, sf, dims["wrap"][mask % 6])
+                        doc, mode = render(dom, dims["refs"][mask % 4], perms[mask % len(perms)], indent, ex, sf, dims["wrap"][mask % len(dims["wrap"])])
                         emit(doc, exp, "product:extras-subsets", mode)
 
     # float spellings, one property at a time, in every float-carrying position
